@@ -149,9 +149,19 @@ func newConcSUT(kind string, rng *rand.Rand) (*concSUT, error) {
 			return idx.Add(*comet.NewMetadataNodeWithID(id, map[string]any{"kind": "doc", "n": rng.IntN(7) - 3}))
 		}
 		s.remove = func(id uint32) error { return idx.Remove(*comet.NewMetadataNodeWithID(id, nil)) }
+		// every one of these filters matches every document (n is always present, in -3..3): categorical and numeric
+		// read paths take turns, so state that a read-only numeric search corrupts is seen by the visibility oracle
+		allMatching := []comet.Filter{comet.Eq("kind", "doc"), comet.Gte("n", -3), comet.Exists("n"), comet.Lte("n", 3), comet.Range("n", -3, 3), comet.Ne("n", 99)}
+		var turn atomic.Int64
 		s.searchAll = func() (map[uint32]bool, error) {
-			res, err := idx.NewSearch().WithFilters(comet.Eq("kind", "doc")).Execute()
+			f := allMatching[int(turn.Add(1))%len(allMatching)]
+			res, err := idx.NewSearch().WithFilters(f).Execute()
 			return idsOfMeta(res), err
+		}
+		// complement-style and other read-only searches beside everything else (results not judged here: C04 does that)
+		various := []comet.Filter{comet.Ne("n", 0), comet.Not(comet.Range("n", -1, 1)), comet.NotExists("n"), comet.Not(comet.Eq("kind", "x")), comet.Lt("n", 0), comet.NotIn("kind", "doc"), comet.Not(comet.Exists("n"))}
+		s.extra = func(rng *rand.Rand) {
+			idx.NewSearch().WithFilters(various[rng.IntN(len(various))]).Execute()
 		}
 		s.searchRestricted = func(ids []uint32) (map[uint32]bool, error) {
 			res, err := idx.NewSearch().WithFilters(comet.Gte("n", -1)).Execute()
@@ -227,6 +237,16 @@ func newConcSUT(kind string, rng *rand.Rand) (*concSUT, error) {
 			// a filtered hybrid query drives the pooled document filters of the sub-indexes
 			res, err := h.NewSearch().WithK(bigK).WithVector(cloneF32(q)).WithText("common").WithMetadata(comet.Gte("n", 0)).Execute()
 			return toSet(res), err
+		}
+		// complement-style metadata filters through the hybrid / store search, beside everything else
+		variousH := []comet.Filter{comet.Ne("n", 0), comet.Not(comet.Range("n", -1, 1)), comet.NotExists("n"), comet.Lt("n", 0), comet.Not(comet.Eq("kind", "x"))}
+		prevExtra := s.extra
+		s.extra = func(rng *rand.Rand) {
+			if rng.IntN(2) == 0 {
+				prevExtra(rng)
+				return
+			}
+			h.NewSearch().WithK(5).WithMetadata(variousH[rng.IntN(len(variousH))]).Execute()
 		}
 		s.flush = h.Flush
 	}
